@@ -84,10 +84,38 @@ theorem tagOid_frame (s : State) (i j : Nat) (k : Bytes) (o : Nat) (h : j ≠ i)
   · rfl
   · simp [NMap.get_put_other _ _ _ _ (Ne.symm h)]
 
+theorem db_of_get_eq (s s' : State) (j : Nat) (h : s'.dbs.get j = s.dbs.get j) : s'.db j = s.db j := by
+  unfold State.db; rw [h]
+
+/-- creating a database is invisible through `State.db` (an absent database reads as empty) -/
+theorem createDb_db_all (s : State) (i j : Nat) : (s.createDb i).db j = s.db j := by
+  by_cases h : j = i
+  · subst h
+    unfold State.createDb State.db
+    split
+    · rfl
+    · rename_i hh
+      simp only [State.hasDb, Option.isSome_iff_ne_none, ne_eq, Decidable.not_not] at hh
+      simp [hh]
+  · exact db_of_get_eq _ _ _ (createDb_frame s i j h)
+
+theorem setConnDb_db (c : Ctx) (s : State) (d j : Nat) : (setConnDb c s d).db j = s.db j := by
+  unfold setConnDb
+  simp only
+  exact createDb_db_all s d j
+
+theorem swapDbs_db (s : State) (d1 d2 j : Nat) : (swapDbs s d1 d2).db j = s.db j := by
+  unfold swapDbs
+  split
+  · rfl
+  · simp only
+    show ((s.createDb d1).createDb d2).db j = s.db j
+    rw [createDb_db_all, createDb_db_all]
+
 /-- one primitive other than the all-databases flush leaves the other databases alone -/
 theorem prim_frame (c : Ctx) (s : State) (p : Prim) (s' : State) (r : p.Res) (j : Nat)
     (hj : j ≠ c.db) (hp : p ≠ .flush true) (h : p.exec c s = some (s', r)) :
-    s'.dbs.get j = s.dbs.get j := by
+    s'.db j = s.db j := by
   cases p with
   | keysExist ks =>
     simp only [Prim.exec] at h
@@ -98,31 +126,39 @@ theorem prim_frame (c : Ctx) (s : State) (p : Prim) (s' : State) (r : p.Res) (j 
   | getValues ks =>
     simp only [Prim.exec] at h
     rw [show s' = (getValues c s ks).1 from by rw [Option.some.inj h]]
-    exact getValues_frame c ks s j hj
+    exact db_of_get_eq _ _ _ (getValues_frame c ks s j hj)
   | setValues es =>
     simp only [Prim.exec] at h
     rw [show s' = (setValues c s es).1 from by rw [Option.some.inj h]]
-    exact setValues_frame c s es j hj
+    exact db_of_get_eq _ _ _ (setValues_frame c s es j hj)
   | setExpiry k e t =>
     simp only [Prim.exec, Option.map_eq_some_iff] at h
     obtain ⟨a, ha, hb⟩ := h
     rw [show s' = a from by rw [← (Prod.mk.inj hb).1]]
-    exact setExpiry_frame c s a k e j hj ha
+    exact db_of_get_eq _ _ _ (setExpiry_frame c s a k e j hj ha)
   | deleteKey k =>
     simp only [Prim.exec] at h
     rw [show s' = deleteKey s c.db k from by rw [← (Prod.mk.inj (Option.some.inj h)).1]]
-    exact deleteKey_frame s c.db j k hj
+    exact db_of_get_eq _ _ _ (deleteKey_frame s c.db j k hj)
   | mutObj k v =>
     simp only [Prim.exec] at h
     rw [show s' = mutObj s c.db k v from by rw [← (Prod.mk.inj (Option.some.inj h)).1]]
-    exact mutObj_frame s c.db j k v hj
+    exact db_of_get_eq _ _ _ (mutObj_frame s c.db j k v hj)
   | newOid =>
     simp only [Prim.exec] at h
     rw [show s' = s from by rw [← (Prod.mk.inj (Option.some.inj h)).1]]
   | tagOid k o =>
     simp only [Prim.exec] at h
     rw [show s' = tagOid s c.db k o from by rw [← (Prod.mk.inj (Option.some.inj h)).1]]
-    exact tagOid_frame s c.db j k o hj
+    exact db_of_get_eq _ _ _ (tagOid_frame s c.db j k o hj)
+  | setConnDb d =>
+    simp only [Prim.exec] at h
+    rw [show s' = setConnDb c s d from by rw [← (Prod.mk.inj (Option.some.inj h)).1]]
+    exact setConnDb_db c s d j
+  | swapDbs d1 d2 =>
+    simp only [Prim.exec] at h
+    rw [show s' = swapDbs s d1 d2 from by rw [← (Prod.mk.inj (Option.some.inj h)).1]]
+    exact swapDbs_db s d1 d2 j
   | flush all =>
     cases all with
     | true => exact absurd rfl hp
@@ -130,10 +166,10 @@ theorem prim_frame (c : Ctx) (s : State) (p : Prim) (s' : State) (r : p.Res) (j 
       simp only [Prim.exec, Option.map_eq_some_iff] at h
       obtain ⟨a, ha, hb⟩ := h
       rw [show s' = a from by rw [← (Prod.mk.inj hb).1]]
-      exact flushDb_frame s a c.db j hj ha
+      exact db_of_get_eq _ _ _ (flushDb_frame s a c.db j hj ha)
 
 theorem frame_run {α : Type} (p : Prog α) : ∀ (c : Ctx) (s : State) (j : Nat),
-    j ≠ c.db → p.NoFlushAll → (p.run c s).1.dbs.get j = s.dbs.get j := by
+    j ≠ c.db → p.NoFlushAll → (p.run c s).1.db j = s.db j := by
   induction p with
   | ret a => intro c s j _ _; rfl
   | panic w => intro c s j _ _; rfl
